@@ -143,6 +143,49 @@ def run_generation(workdir: Path, strategy: str, hashseed: str, glob_shuffle: Op
     return p.returncode, (p.stdout + p.stderr)[-1500:]
 
 
+HISTORY_DRIVER = '''"""Several generations in ONE interpreter: decoys first, then the project (twice, with the same loaded configuration object)."""
+import json
+import os
+import sys
+
+from ariadne_codegen.config import get_config_dict
+from ariadne_codegen.main import client, graphql_schema
+
+fn = {"client": client, "graphqlschema": graphql_schema}
+rc = 0
+for st in json.load(open(sys.argv[1])):
+    os.chdir(st["dir"])
+    try:
+        cfg = get_config_dict(None)
+        fn[st["strategy"]](cfg)
+        if st.get("twice"):
+            fn[st["strategy"]](cfg)
+    except BaseException as e:  # noqa: BLE001
+        if st.get("must"):
+            sys.stderr.write("STEP-FAILED %s %s: %s\\n" % (st["dir"], type(e).__name__, str(e)[:400]))
+            rc = 1
+sys.exit(rc)
+'''
+
+
+def run_history(base: Path, steps: List[Dict[str, Any]], hashseed: str, glob_shuffle: Optional[int]) -> Tuple[int, str]:
+    env = dict(os.environ)
+    env["PYTHONHASHSEED"] = hashseed
+    inj = base / "_inject"
+    inj.mkdir(exist_ok=True)
+    (inj / "sitecustomize.py").write_text(SITECUSTOMIZE)
+    env["PYTHONPATH"] = str(core.REPO) + os.pathsep + str(inj)
+    if glob_shuffle is not None:
+        env["VF_GLOB_SHUFFLE"] = str(glob_shuffle)
+    else:
+        env.pop("VF_GLOB_SHUFFLE", None)
+    env["PYTHONDONTWRITEBYTECODE"] = "1"
+    (base / "_history_driver.py").write_text(HISTORY_DRIVER)
+    (base / "_history_steps.json").write_text(json.dumps(steps))
+    p = subprocess.run(["/venv/bin/python", "-W", "ignore", str(base / "_history_driver.py"), str(base / "_history_steps.json")], cwd=base, env=env, capture_output=True, text=True, timeout=600)
+    return p.returncode, (p.stdout + p.stderr)[-1500:]
+
+
 def lay_out(workdir: Path, sdl_defs: List[str], query_defs: List[str], cfg: Dict[str, Any], order_seed: Optional[int], strategy: str) -> None:
     """Write inputs. order_seed None: single files; else: directories whose files are created in a seeded order."""
     workdir.mkdir(parents=True, exist_ok=True)
@@ -286,13 +329,53 @@ def one_case(case: Dict[str, Any]) -> Dict[str, Any]:
             target = wd / cfg.get("target_package_name", "graphql_client") if strategy == "client" else wd / cfg["target_file_path"]
             digests["regenerate-over-existing"] = ({"__failed__": str(rc)} if rc != 0 else
                                                    (digest_tree(target) if target.is_dir() else {target.name: hashlib.sha256(target.read_bytes()).hexdigest()}))
+        # ---- what the process did before must not matter: in ONE interpreter, first a decoy project with OTHER inputs under the same relative file names and the
+        # same configuration, then the same inputs under a minimal configuration, then the project itself - twice, from the same loaded configuration object,
+        # the second time over what the first wrote - as single files and as directories. The trees must equal the ones a fresh interpreter produced.
+        if case.get("history") and "__failed__" not in digests["seed0"]:
+            def target_of(wd_):
+                return wd_ / cfg.get("target_package_name", "graphql_client") if strategy == "client" else wd_ / cfg["target_file_path"]
+            steps: List[Dict[str, Any]] = []
+            other = cw.build_inputs(dict({k_: v_ for k_, v_ in case.items() if not k_.startswith("_")}, idx=case["idx"] + 7919))
+            if other is not None:
+                o_spec, _, _ = generate_schema(case["seed"] * 100003 + case["idx"] + 7919, set(case.get("dirty", [])), size=case.get("size", "m"))
+                for lab_, order_ in (("decoy-other-single", None), ("decoy-other-dir", 1)):
+                    lay_out(base / lab_, o_spec.definitions(), other[1] + other[2], cfg, order_, strategy)
+                    for rel, text in extra_files.items():
+                        (base / lab_ / rel).write_text(text)
+                    steps.append({"dir": str(base / lab_), "strategy": strategy})
+            minimal = {"target_file_path": cfg["target_file_path"]} if strategy != "client" else {"include_comments": "none"}
+            lay_out(base / "decoy-same-minimal", sdl_defs, query_defs, dict(minimal, **({"remote_schema_url": cfg["remote_schema_url"]} if cfg.get("remote_schema_url") else {})), None, strategy)
+            steps.append({"dir": str(base / "decoy-same-minimal"), "strategy": strategy})
+            for lab_, order_ in (("history-single", None), ("history-dir", 1)):
+                lay_out(base / lab_, sdl_defs, query_defs, cfg, order_, strategy)
+                for rel, text in extra_files.items():
+                    (base / lab_ / rel).write_text(text)
+                steps.append({"dir": str(base / lab_), "strategy": strategy, "must": True, "twice": True})
+            rc, log = run_history(base, steps, "0", glob_shuffle=1)
+            out["stats"]["runs"] = out["stats"].get("runs", 0) + 1
+            out["stats"]["history_processes"] = out["stats"].get("history_processes", 0) + 1
+            out["stats"]["history_generations"] = out["stats"].get("history_generations", 0) + len(steps) + 2
+            feats.add("history.generations_in_one_process")
+            out["feats"] = sorted(feats)
+            for lab_ in ("history-single", "history-dir"):
+                t_ = target_of(base / lab_)
+                if rc != 0 and ("STEP-FAILED %s " % (base / lab_)) in log:
+                    logs[lab_] = log
+                    digests[lab_] = {"__failed__": log[-400:]}
+                elif not t_.exists():
+                    digests[lab_] = {"__failed__": "no target written: " + log[-300:]}
+                else:
+                    digests[lab_] = digest_tree(t_) if t_.is_dir() else {t_.name: hashlib.sha256(t_.read_bytes()).hexdigest()}
         if all("__failed__" in d for d in digests.values()):
             out["status"] = "inconclusive"
             out["note"] = "generation fails for this input (C04's concern): " + next(iter(logs.values()))[-300:]
             return out
         groups = {"hash-seed": [k for k in digests if k.startswith("seed")], "file-creation-order": [k for k in digests if k.startswith("dir-")],
                   "hash-seed-directory-layout": ["dir-orderA"] + [k for k in digests if k.startswith("dirseed")],
-                  "regenerate": ["seed0", "regenerate-over-existing"] if "regenerate-over-existing" in digests else []}
+                  "regenerate": ["seed0", "regenerate-over-existing"] if "regenerate-over-existing" in digests else [],
+                  "process-history": ["seed0", "history-single"] if "history-single" in digests else [],
+                  "process-history-directory-layout": ["dir-orderA", "history-dir"] if "history-dir" in digests else []}
         replay_case = dict(case)
         replay_case["_sdl"] = sdl
         replay_case["_queries"] = "\n\n".join(query_defs)
@@ -335,7 +418,7 @@ def run(tier: str, seed: int) -> int:
               "PYTHONHASHSEED in {0,1,2,4242,random} (+8 more in thorough), as single files and as directories whose files are created in three shuffled orders with "
               "shuffled mtimes, and regenerated over an existing generation; both strategies, graphqlschema with py and graphql targets; distinct = distinct feature-set")
     r.assumptions = ["sha256 equality of every produced file is byte identity"]
-    r.floors = {"runs": 200, "comparisons": 100}
+    r.floors = {"runs": 200, "comparisons": 100, "history_processes": 10}
     n = 120 if tier == "thorough" else 40
     cases = []
     for i in range(n):
@@ -358,6 +441,7 @@ def run(tier: str, seed: int) -> int:
         c["dirty"] = kw["dirty"]
         if strategy == "client" and i % 4 == 2:
             c["cfg"] = dict(c["cfg"], enable_custom_operations=True)  # the builder modules list the schema's types: another ordering that must not depend on set iteration
+        c["history"] = (i % 2 == 1) or tier == "thorough"
         c["max_doc_chars"] = 20000  # few cases, real subprocesses: larger documents (more set-iteration sites per run) are affordable here
         cases.append(c)
     with ThreadPoolExecutor(max_workers=core.WORKERS) as ex:
